@@ -67,6 +67,7 @@ type State struct {
 	Cur      int
 	Mutex    map[string]MutexSt
 	Clock    string
+	ClockMax string
 	Now0     string
 	Occ      map[string]int
 	Nondet   []NondetRec
@@ -91,7 +92,7 @@ func (s *State) setStack(f []*Frame)  { s.Threads[s.Cur].Stack = f }
 func (s *State) push(f *Frame)        { s.Threads[s.Cur].Stack = append(s.Threads[s.Cur].Stack, f) }
 
 func (s *State) Fork() *State {
-	n := &State{NextObj: s.NextObj, Cur: s.Cur, Clock: s.Clock, Now0: s.Now0, NoPanic: s.NoPanic, Depth: s.Depth, Assumes: s.Assumes, Steps: s.Steps}
+	n := &State{NextObj: s.NextObj, Cur: s.Cur, Clock: s.Clock, ClockMax: s.ClockMax, Now0: s.Now0, NoPanic: s.NoPanic, Depth: s.Depth, Assumes: s.Assumes, Steps: s.Steps}
 	n.Heap = make(map[int]Value, len(s.Heap)+8)
 	for k, v := range s.Heap {
 		n.Heap[k] = v
